@@ -1,6 +1,7 @@
 package main
 
 import (
+	"encoding/json"
 	"fmt"
 	"os"
 	"sort"
@@ -25,7 +26,8 @@ import (
 
 func round5Scenarios() []func() []monFailure {
 	return []func() []monFailure{scenOwnerAfterRolledBackRegistration, scenParamsAfterFailedProposal, scenRecreateOverExpiredStream, scenPartialUnlockWithOtherHolder, scenSignerListWithBlanks,
-		scenRecheckAfterFeeChange, scenReregisterSameMoniker, scenSameBlockCancel, scenManyDenominationsSupply, scenOnlyRegistryMsgsUnlock}
+		scenRecheckAfterFeeChange, scenReregisterSameMoniker, scenSameBlockCancel, scenManyDenominationsSupply, scenOnlyRegistryMsgsUnlock,
+		scenStartingIdsAcrossExport, scenZeroHeightExportInMintWindow, scenEmptiedAccountSurvivesExport}
 }
 
 // C09 / C13: a transaction [register; record on the id it is about to receive; a failing message] is rolled back as a
@@ -577,5 +579,238 @@ func scenOnlyRegistryMsgsUnlock() []monFailure {
 		}
 	}
 	s.blockEnd()
+	return s.failures
+}
+
+// ---- round 7: export / import glue ----
+
+// C03 / C09 / C13 / C07 / C12 / C15: a chain whose genesis numbering does not start at 1 holds a completed purchase
+// order, a WRKChain registered WITHOUT a base type (legal) with recorded hashes, a BEACON with timestamps and a stream
+// between addresses of different lengths.  It is exported and a fresh chain started from the document.  Then other
+// accounts raise an order and register: everything that existed keeps its id, content, owner and records; the new
+// entities get fresh ids; only the owners can record.
+func scenStartingIdsAcrossExport() []monFailure {
+	cfg := fixedCfg()
+	cfg.startPO, cfg.startWrk, cfg.startBcn = 5, 100, 50
+	cfg.wrkParams = wrktypes.NewParams(1000, 10, 5, "nund", 4, 5) // four records stay in state: nothing below is pruned
+	cfg.bcnParams = bcntypes.NewParams(1000, 10, 5, "nund", 4, 5)
+	s := &scen{c: newChain(cfg), name: "starting-ids-across-export"}
+	defer s.c.close()
+	c := s.c
+	all := func(what string) {
+		for _, p := range []string{"C03", "C09", "C13", "C15"} {
+			s.fail(p, 0, what)
+		}
+	}
+	s.blockStart(5 * time.Second)
+	s.tx(4, nundCoins(0), c.mEntRaise(4, "nund", sdk.NewInt(100)).m)
+	s.tx(0, nundCoins(0), c.mEntDecide(0, 5, 2).m)
+	s.tx(1, nundCoins(0), c.mEntDecide(1, 5, 2).m)
+	s.tx(2, nundCoins(1000), c.mRegRegister(true, 2, "w-one", "name one", "0x5c3a1f", "").m) // no base type
+	s.tx(2, nundCoins(1000), c.mRegRegister(false, 2, "b-one", "beacon one", "", "").m)
+	s.tx(2, nundCoins(10), c.mRegRecord(true, 2, 100, 1, []string{"wh1", "p", "a", "b", "c"}).m)
+	s.tx(2, nundCoins(10), c.mRegRecord(true, 2, 100, 2, []string{"wh2", "p", "", "", ""}).m)
+	s.tx(2, nundCoins(10), c.mRegRecord(false, 2, 50, uint64(c.now.Unix()), []string{"bh1"}).m)
+	// a stream from a 32-byte sender (a module / group-policy style account) to a 20-byte receiver, written through the keeper
+	long := make([]byte, 32)
+	for i := range long {
+		long[i] = byte(7*i + 3)
+	}
+	c.app.StreamKeeper.SetStream(c.ctx(), c.addrOf(1), sdk.AccAddress(long), strtypes.Stream{Deposit: sdk.NewInt64Coin("nund", 0), FlowRate: 1, LastOutflowTime: c.now, DepositZeroTime: c.now, Cancellable: true})
+	s.blockEnd()
+	for i := 0; i < 2; i++ {
+		s.blockStart(5 * time.Second)
+		s.blockEnd()
+	}
+	snap := func() map[string]string {
+		ctx := c.committedCtx()
+		m := map[string]string{}
+		po, _ := c.app.EnterpriseKeeper.GetPurchaseOrder(ctx, 5)
+		m["purchase order 5"] = po.String()
+		wc, _ := c.app.WrkchainKeeper.GetWrkChain(ctx, 100)
+		m["WRKChain 100"] = wc.String()
+		for _, h := range []uint64{1, 2} {
+			b, ok := c.app.WrkchainKeeper.GetWrkChainBlock(ctx, 100, h)
+			m[fmt.Sprintf("WRKChain 100 height %d", h)] = fmt.Sprint(ok, " ", b.String())
+		}
+		b, _ := c.app.BeaconKeeper.GetBeacon(ctx, 50)
+		m["BEACON 50"] = b.String()
+		t, ok := c.app.BeaconKeeper.GetBeaconTimestampByID(ctx, 50, 1)
+		m["BEACON 50 timestamp 1"] = fmt.Sprint(ok, " ", t.String())
+		st, ok := c.app.StreamKeeper.GetStream(ctx, c.addrOf(1), sdk.AccAddress(long))
+		m["stream 32-byte sender -> account 1"] = fmt.Sprint(ok, " ", st.String())
+		return m
+	}
+	before := snap()
+	if before["purchase order 5"] == "" || !strings.Contains(before["purchase order 5"], "STATUS_COMPLETED") {
+		return s.failures // set-up did not complete the order: nothing to observe
+	}
+	_, problems := c.reimport()
+	for _, p := range problems {
+		what := "export + import of a chain numbered from 5 / 100 / 50: " + p
+		s.fail("C15", 0, what)
+		switch { // the property whose module the problem is in
+		case strings.Contains(p, "enterprise"):
+			s.fail("C03", 0, what)
+		case strings.Contains(p, "wrkchain"):
+			s.fail("C09", 0, what)
+			s.fail("C07", 0, what)
+		case strings.Contains(p, "beacon"):
+			s.fail("C13", 0, what)
+		case strings.Contains(p, "stream"):
+			s.fail("C12", 0, what)
+			s.fail("C18", 0, what)
+		default:
+			all(what)
+		}
+	}
+	if len(problems) > 0 && strings.Contains(problems[0], "panicked") {
+		return s.failures
+	}
+	check := func(stage string) {
+		after := snap()
+		for k, v := range before {
+			if after[k] != v {
+				what := fmt.Sprintf("%s: %s changed: was %.200s, is %.200s", stage, k, v, after[k])
+				all(what)
+				if strings.HasPrefix(k, "WRKChain 100 height") {
+					s.fail("C07", 0, what)
+				}
+				if strings.HasPrefix(k, "stream") {
+					s.fail("C12", 0, what)
+					s.fail("C18", 0, what)
+				}
+			}
+		}
+	}
+	check("after export + import")
+	// other accounts now raise an order and register
+	s.blockStart(5 * time.Second)
+	s.tx(0, nundCoins(0), c.mEntWhitelist(0, 3, 1).m)
+	s.tx(3, nundCoins(0), c.mEntRaise(3, "nund", sdk.NewInt(7)).m)
+	s.tx(3, nundCoins(1000), c.mRegRegister(true, 3, "w-two", "name two", "0xbeef", "t").m)
+	s.tx(3, nundCoins(1000), c.mRegRegister(false, 3, "b-two", "beacon two", "", "").m)
+	if r := s.tx(3, nundCoins(10), c.mRegRecord(true, 3, 100, 9, []string{"intruder", "", "", "", ""}).m); r.Code == 0 {
+		all("after export + import a record on WRKChain 100 signed by an account that registered AFTER the restart was accepted")
+	}
+	if r := s.tx(2, nundCoins(10), c.mRegRecord(true, 2, 100, 3, []string{"wh3", "", "", "", ""}).m); r.Code != 0 {
+		all("after export + import the owner of WRKChain 100 is refused: " + firstLine(r.Log))
+	}
+	s.blockEnd()
+	// its cursor legitimately moved with the owner's record at height 3
+	delete(before, "WRKChain 100")
+	check("after new registrations on the restarted chain")
+	ctx := c.committedCtx()
+	if po, ok := c.app.EnterpriseKeeper.GetPurchaseOrder(ctx, 6); !ok || po.Purchaser != c.addrOf(3).String() {
+		all(fmt.Sprintf("the order raised after the restart is not purchase order 6 of account 3 (found %v: %s)", ok, po.String()))
+	}
+	if wc, ok := c.app.WrkchainKeeper.GetWrkChain(ctx, 101); !ok || wc.Owner != c.addrOf(3).String() {
+		all(fmt.Sprintf("the WRKChain registered after the restart is not WRKChain 101 of account 3 (found %v: %s)", ok, wc.String()))
+	}
+	if b, ok := c.app.BeaconKeeper.GetBeacon(ctx, 51); !ok || b.Owner != c.addrOf(3).String() {
+		all(fmt.Sprintf("the BEACON registered after the restart is not BEACON 51 of account 3 (found %v: %s)", ok, b.String()))
+	}
+	return s.failures
+}
+
+// C02 / C15: a zero-height export (und export --for-zero-height) taken in the one-block window in which an order is
+// accepted but not yet minted neither mints nor loses it: the exported bank supply is the chain's, and on the chain
+// started from the document the order is minted exactly once, in a block.
+func scenZeroHeightExportInMintWindow() []monFailure {
+	s := &scen{c: newChain(fixedCfg()), name: "zero-height-export-in-mint-window"}
+	defer s.c.close()
+	c := s.c
+	s.blockStart(5 * time.Second)
+	s.tx(4, nundCoins(0), c.mEntRaise(4, "nund", sdk.NewInt(1_000_000)).m)
+	s.tx(0, nundCoins(0), c.mEntDecide(0, 1, 2).m)
+	s.tx(1, nundCoins(0), c.mEntDecide(1, 1, 2).m)
+	s.blockEnd()
+	s.blockStart(5 * time.Second) // the tally accepts the order
+	s.blockEnd()
+	po, _ := c.app.EnterpriseKeeper.GetPurchaseOrder(c.committedCtx(), 1)
+	if po.Status != enttypes.StatusAccepted {
+		return s.failures
+	}
+	supplyBefore := c.app.BankKeeper.GetSupply(c.committedCtx(), "nund").Amount
+	exp, err := c.app.ExportAppStateAndValidators(true, nil, nil)
+	if err != nil {
+		s.fail("C15", 0, "zero-height export failed: "+err.Error())
+		return s.failures
+	}
+	var g map[string]json.RawMessage
+	json.Unmarshal(exp.AppState, &g)
+	var bank banktypes.GenesisState
+	c.app.AppCodec().MustUnmarshalJSON(g["bank"], &bank)
+	if got := bank.Supply.AmountOf("nund"); !got.Equal(supplyBefore) {
+		for _, p := range []string{"C02", "C15"} {
+			s.fail(p, 0, fmt.Sprintf("a zero-height export taken while purchase order 1 (1000000nund) was accepted but not yet minted writes a bank supply of %snund; the chain's supply is %snund: the export minted outside any block", got, supplyBefore))
+		}
+	}
+	var eg enttypes.GenesisState
+	c.app.AppCodec().MustUnmarshalJSON(g["enterprise"], &eg)
+	for _, o := range eg.PurchaseOrders {
+		if o.Id == 1 && o.Status != enttypes.StatusAccepted {
+			for _, p := range []string{"C02", "C03", "C15"} {
+				s.fail(p, 0, fmt.Sprintf("the zero-height export writes purchase order 1 as %s; on the chain it is accepted and not yet minted", o.Status))
+			}
+		}
+	}
+	return s.failures
+}
+
+// C04 / C15: an account that has spent ALL of its locked eFUND (locked exactly 0, spent > 0) keeps its books through
+// export + import: locked + spent = its completed orders, total spent = sum of spent.
+func scenEmptiedAccountSurvivesExport() []monFailure {
+	s := &scen{c: newChain(fixedCfg()), name: "emptied-account-survives-export"}
+	defer s.c.close()
+	c := s.c
+	ek := c.app.EnterpriseKeeper
+	s.blockStart(5 * time.Second)
+	s.tx(0, nundCoins(0), c.mEntWhitelist(0, 3, 1).m)
+	s.tx(4, nundCoins(0), c.mEntRaise(4, "nund", sdk.NewInt(1000)).m)
+	s.tx(3, nundCoins(0), c.mEntRaise(3, "nund", sdk.NewInt(5000)).m)
+	for _, id := range []uint64{1, 2} {
+		s.tx(0, nundCoins(0), c.mEntDecide(0, id, 2).m)
+		s.tx(1, nundCoins(0), c.mEntDecide(1, id, 2).m)
+	}
+	s.blockEnd()
+	for i := 0; i < 2; i++ {
+		s.blockStart(5 * time.Second)
+		s.blockEnd()
+	}
+	s.blockStart(5 * time.Second)
+	s.tx(4, nundCoins(1000), c.mRegRegister(true, 4, "w", "n", "g", "t").m) // spends all 1000 of account 4
+	s.tx(3, nundCoins(1000), c.mRegRegister(false, 3, "b", "n", "", "").m)  // spends 1000 of account 3's 5000
+	s.blockEnd()
+	ctx := c.committedCtx()
+	if !ek.GetLockedUndAmountForAccount(ctx, c.addrOf(4)).Amount.IsZero() || !ek.GetSpentEFUNDAmountForAccount(ctx, c.addrOf(4)).Amount.Equal(sdk.NewInt(1000)) {
+		return s.failures // set-up did not empty the account: nothing to observe
+	}
+	_, problems := c.reimport()
+	for _, p := range problems {
+		s.fail("C15", 0, "export + import with an emptied eFUND account: "+p)
+		s.fail("C04", 0, "export + import with an emptied eFUND account: "+p)
+	}
+	if len(problems) > 0 && strings.Contains(problems[0], "panicked") {
+		return s.failures
+	}
+	ctx, ek = c.committedCtx(), c.app.EnterpriseKeeper
+	sumSpent := sdk.ZeroInt()
+	for _, x := range ek.GetAllSpentEFUNDs(ctx) {
+		sumSpent = sumSpent.Add(x.Amount.Amount)
+	}
+	for acct, orders := range map[int]int64{4: 1000, 3: 5000} {
+		l, sp := ek.GetLockedUndAmountForAccount(ctx, c.addrOf(acct)).Amount, ek.GetSpentEFUNDAmountForAccount(ctx, c.addrOf(acct)).Amount
+		if !l.Add(sp).Equal(sdk.NewInt(orders)) {
+			for _, p := range []string{"C04", "C15"} {
+				s.fail(p, 0, fmt.Sprintf("after export + import account %d holds %s locked + %s spent eFUND; its completed orders sum to %d", acct, l, sp, orders))
+			}
+		}
+	}
+	if ts := ek.GetTotalSpentEFUND(ctx).Amount; !ts.Equal(sumSpent) {
+		for _, p := range []string{"C04", "C15"} {
+			s.fail(p, 0, fmt.Sprintf("after export + import total spent is %s, the per-account spent entries sum to %s", ts, sumSpent))
+		}
+	}
 	return s.failures
 }
